@@ -42,8 +42,10 @@ LebAlpha(pos) == IF pos = 1 THEN LebA1 ELSE IF pos = 2 THEN LebA2 ELSE LebA3
 Runs == {1, 31, 62, 63, 64, 65}
 RunBytes(start, n) == [i \in 1..n |-> ((start + i) % 255) + 1]
 
+\* bytes 5..12 (the 64-bit length behind the escape): 5 and 12 free over {0, 255}, the six between are 0 when byte 5 is 0 and a
+\* pattern otherwise - so the lengths 0, 2^56 * 255, ... and "all bits in every byte position" occur
 InitLenA(pos) == IF pos <= 4 THEN {0, 1, 239, 240, 254, 255}
-                 ELSE IF pos \in {5, 12} THEN {0, 255} ELSE {(pos * 17) % 256}
+                 ELSE IF pos \in {5, 12} THEN {0, 255} ELSE IF inp[5] = 0 THEN {0} ELSE {(pos * 17) % 256}
 
 ArrA == {0, 1, 2, 3, 128, 255}
 
